@@ -1178,7 +1178,12 @@ def transform(fn, proceed, to_instrument=True, set_conformer=True):
     if to_instrument is True:
         to_instrument = [_GENERIC]
 
-    src = inspect.getsource(fn)
+    try:
+        src = inspect.getsource(fn)
+    except (OSError, TypeError) as exc:
+        raise TypeError(
+            f"{fn} cannot be tooled: its source code is not available"
+        ) from exc
     # An indented definition (a method, a nested function) is parsed as the
     # body of a block. Dedenting the text would also change the multi-line
     # strings in it, and is not always possible.
@@ -1205,7 +1210,10 @@ def transform(fn, proceed, to_instrument=True, set_conformer=True):
     tree = tree.body[0]
     if shift:
         tree = tree.body[0]
-    assert isinstance(tree, ast.FunctionDef)
+    if not isinstance(tree, ast.FunctionDef):
+        raise TypeError(
+            f"{fn} cannot be tooled: it is not defined by a def statement"
+        )
     tree.decorator_list = []
 
     fnsym = _gensym()
